@@ -180,10 +180,10 @@ Proof. unfold reg_ok. intros E1 E2 H e l. rewrite E1, E2. apply H. Qed.
 Lemma reg_ok_init : reg_ok init.
 Proof. intros e l; cbn; tauto. Qed.
 
-Lemma add_handler_ok key e pid prio hk c s : reg_ok s -> reg_ok (add_handler key e pid prio hk c s).
+Lemma add_handler_ok key e pid prio hk c bf s : reg_ok s -> reg_ok (add_handler key e pid prio hk c bf s).
 Proof.
   intros H e' l'. unfold add_handler. cbn [reg nseq set_reg].
-  set (h := mkH key pid prio (kw_norm hk) c (nseq s)).
+  set (h := mkH key pid prio (kw_norm hk) c bf (nseq s)).
   set (l := match reg_get e (reg s) with Some l => l | None => [] end).
   assert (Hl : sorted_ps l /\ Forall (fun x => h_seq x < nseq s) l).
   { subst l. destruct (reg_get e (reg s)) eqn:G; [now apply (reg_ok_get s e)|]. split; constructor. }
@@ -213,6 +213,22 @@ Proof.
   split; [now apply filter_sorted|now apply filter_Forall].
 Qed.
 
+Lemma remove_by_event_ok e pid s : reg_ok s -> reg_ok (remove_by_event e pid s).
+Proof.
+  intro H. unfold remove_by_event.
+  destruct (reg_get e (reg s)) as [l|] eqn:G; [|exact H].
+  destruct (reg_ok_get _ _ _ H G) as [S F]. intros e' l'. cbn [reg nseq set_reg].
+  destruct (is_nil _) eqn:N; intro I.
+  - apply reg_del_In in I. exact (H _ _ I).
+  - apply reg_put_In in I as [[-> ->]|I]; [|exact (H _ _ I)].
+    split; [now apply filter_sorted|now apply filter_Forall].
+Qed.
+
+Lemma remove_all_ok e s : reg_ok s -> reg_ok (remove_all e s).
+Proof.
+  intros H e' l'. unfold remove_all. cbn [reg nseq set_reg]. intro I. apply reg_del_In in I. exact (H _ _ I).
+Qed.
+
 Lemma replace_handler_ok key e pid prio hk s : reg_ok s -> reg_ok (replace_handler key e pid prio hk s).
 Proof.
   intro H. unfold replace_handler. apply add_handler_ok.
@@ -240,48 +256,75 @@ Proof. intro G. apply (remove_by_method_complete pid s e). now apply reg_get_In.
 Lemma post_reg fast e ty cb k s : reg (post fast e ty cb k s) = reg s /\ nseq (post fast e ty cb k s) = nseq s.
 Proof. unfold post. destruct (_ && _ && _); split; reflexivity. Qed.
 
-Lemma run_action_ok fast a s : reg_ok s -> reg_ok (run_action fast a s).
+Definition call_ok (call : Z -> state -> state) : Prop := forall p s, reg_ok s -> reg_ok (call p s).
+
+Lemma run_action_ok fast call a s : call_ok call -> reg_ok s -> reg_ok (run_action fast call a s).
 Proof.
-  destruct a; cbn.
+  intro C. destruct a; cbn [run_action].
   - intro H. destruct (post_reg fast e ty cb k s) as [E1 E2]. exact (reg_ok_eq _ _ E1 E2 H).
   - apply add_handler_ok.
   - apply remove_by_key_ok.
   - apply remove_by_method_ok.
   - apply replace_handler_ok.
+  - apply remove_by_event_ok.
+  - apply remove_all_ok.
+  - intro H. exact (reg_ok_eq s _ eq_refl eq_refl H).
+  - intro H. exact (reg_ok_eq s _ eq_refl eq_refl H).
+  - intro H. destruct (assoc name (dly s)); [|exact H]. apply C. exact (reg_ok_eq s _ eq_refl eq_refl H).
+  - revert s. induction pids as [|q pids IH]; intros s H; cbn [fold_left]; [exact H|]. apply IH. now apply C.
+  - intro H. exact (reg_ok_eq s _ eq_refl eq_refl H).
 Qed.
 
-Lemma run_acts_ok fast l s : reg_ok s -> reg_ok (run_acts fast l s).
+Lemma run_acts_ok fast call l s : call_ok call -> reg_ok s -> reg_ok (run_acts fast call l s).
 Proof.
-  unfold run_acts. revert s. induction l as [|a l IH]; intros s H; cbn; [exact H|].
+  intro C. unfold run_acts. revert s. induction l as [|a l IH]; intros s H; cbn; [exact H|].
   apply IH. now apply run_action_ok.
 Qed.
 
+Lemma invoke_d_ok fast sc d : forall pid s, reg_ok s -> reg_ok (fst (invoke_d fast sc d pid s)).
+Proof.
+  induction d as [|d IH]; intros pid s H; cbn [invoke_d fst]; apply run_acts_ok;
+    try exact (reg_ok_eq s _ eq_refl eq_refl H).
+  - intros p s' H'. exact (reg_ok_eq s' _ eq_refl eq_refl H').
+  - intros p s' H'. apply IH. exact (reg_ok_eq s' _ eq_refl eq_refl H').
+Qed.
+
 Lemma invoke_ok fast sc pid s : reg_ok s -> reg_ok (fst (invoke fast sc pid s)).
-Proof. intro H. unfold invoke; cbn [fst]. apply run_acts_ok. exact H. Qed.
+Proof. apply invoke_d_ok. Qed.
 
 Lemma run_handlers_ok fast sc e ty hs : forall kwargs r s,
   reg_ok s -> reg_ok (fst (fst (run_handlers fast sc e ty hs kwargs r s))).
 Proof.
   induction hs as [|h tl IH]; intros kwargs r s H; cbn [run_handlers]; [exact H|].
+  destruct (blocked kwargs h); [now apply IH|].
   destruct (cond_holds _ _); [|now apply IH].
   destruct (invoke fast sc (h_pid h) _) as [s2 r2] eqn:EI.
   assert (H2 : reg_ok s2).
   { replace s2 with (fst (invoke fast sc (h_pid h) (emit (Invoke (h_key h) (h_pid h) e (merge kwargs (h_kw h))) s)))
       by now rewrite EI. apply invoke_ok. exact H. }
-  destruct ty.
-  - now apply IH.
-  - destruct (is_false r2); [exact H2|now apply IH].
-  - destruct r2; now apply IH.
+  destruct ty; try (now apply IH).
+  destruct (is_false r2); [exact H2|now apply IH].
 Qed.
 
-Lemma process_ok fast sc p s : reg_ok s -> reg_ok (process fast sc p s).
+Lemma process_std_ok fast sc p s : reg_ok s -> reg_ok (process_std fast sc p s).
 Proof.
-  intro H. unfold process. cbn [reg mark_disp].
+  intro H. unfold process_std. cbn [reg mark_disp].
   destruct (reg_get (q_ev p) (reg s)) as [hs|].
   - pose proof (run_handlers_ok fast sc (q_ev p) (q_ty p) hs (q_kw p) RNone (mark_disp (q_id p) s) H) as H1.
     destruct (run_handlers _ _ _ _ _ _ _ _) as [[s1 kwargs] result]. cbn in H1.
     destruct (q_cb p); exact H1.
   - destruct (q_cb p); exact H.
+Qed.
+
+Lemma process_q_ok p s : reg_ok s -> reg_ok (process_q p s).
+Proof.
+  intro H. unfold process_q. cbn [reg mark_disp].
+  destruct (reg_get (q_ev p) (reg s)); [|destruct (q_cb p)]; exact (reg_ok_eq s _ eq_refl eq_refl H).
+Qed.
+
+Lemma process_ok fast sc p s : reg_ok s -> reg_ok (process fast sc p s).
+Proof.
+  intro H. unfold process. destruct (q_ty p); try (now apply process_std_ok). now apply process_q_ok.
 Qed.
 
 Lemma dfs_ok fast sc f : forall pending s, reg_ok s -> reg_ok (dfs fast sc f pending s).
@@ -305,116 +348,209 @@ Qed.
 (* ========================================================================================== *)
 (* C. what one invocation / one dispatch changes                                                *)
 
-Definition is_invoke (e : Z) (o : obs) : Prop := exists k p m, o = Invoke k p e m.
+Definition is_sub (o : obs) : Prop := exists p, o = Sub p.
+(* an observation of the dispatch of event e: a handler of e is called, or a callback is run inline by a handler *)
+Definition is_invoke (e : Z) (o : obs) : Prop := (exists k p m, o = Invoke k p e m) \/ is_sub o.
 
-(* s' differs from s by: observations o appended, posts appended to the event queue *)
+Lemma subs_are_seg e o : Forall is_sub o -> Forall (is_invoke e) o.
+Proof. intro H. eapply Forall_impl; [|exact H]. intros a Ha. now right. Qed.
+
+(* s' differs from s by: observations o appended, posts appended to the event queue; nothing was dispatched, no
+   callback was queued or run *)
 Definition hgrows (s s' : state) (o : list obs) : Prop :=
-  out s' = out s ++ o /\ cbq s' = cbq s /\ pushed s' = pushed s /\ disp s' = disp s /\ oof s' = oof s /\
+  out s' = out s ++ o /\ cbq s' = cbq s /\ pushed s' = pushed s /\ disp s' = disp s /\
+  (oof s' = false -> oof s = false) /\
   exists new, evq s' = evq s ++ new /\ enq s' = enq s ++ map q_id new.
 
 Lemma hgrows_refl s : hgrows s s [].
 Proof.
-  unfold hgrows. rewrite app_nil_r. repeat split. exists []. cbn. now rewrite !app_nil_r.
+  unfold hgrows. rewrite app_nil_r. repeat split; auto. exists []. cbn. now rewrite !app_nil_r.
 Qed.
 
 Lemma hgrows_trans s1 s2 s3 o1 o2 : hgrows s1 s2 o1 -> hgrows s2 s3 o2 -> hgrows s1 s3 (o1 ++ o2).
 Proof.
   intros (A1 & A2 & A3 & A4 & A5 & n1 & A6 & A7) (B1 & B2 & B3 & B4 & B5 & n2 & B6 & B7).
-  unfold hgrows. rewrite B1, A1, B2, A2, B3, A3, B4, A4, B5, A5, app_assoc. repeat split.
+  unfold hgrows. rewrite B1, A1, B2, A2, B3, A3, B4, A4, app_assoc. repeat split; auto.
   exists (n1 ++ n2). rewrite B6, A6, B7, A7, map_app, !app_assoc. split; reflexivity.
 Qed.
 
 Lemma hgrows_frame s s' : out s' = out s -> cbq s' = cbq s -> pushed s' = pushed s -> disp s' = disp s ->
   oof s' = oof s -> evq s' = evq s -> enq s' = enq s -> hgrows s s' [].
 Proof.
-  intros. unfold hgrows. rewrite app_nil_r. repeat split; try assumption. exists []. cbn.
-  rewrite !app_nil_r. split; assumption.
+  intros ? ? ? ? Ho ? ?. unfold hgrows. rewrite app_nil_r. repeat split; try assumption.
+  - now rewrite Ho.
+  - exists []. cbn. rewrite !app_nil_r. split; assumption.
 Qed.
 
-Lemma run_action_grows fast a s : hgrows s (run_action fast a s) [].
+(* inline calls only add Sub observations *)
+Definition call_grows (call : Z -> state -> state) : Prop :=
+  forall p s, exists o, hgrows s (call p s) o /\ Forall is_sub o.
+
+Lemma run_action_grows fast call a s :
+  call_grows call -> exists o, hgrows s (run_action fast call a s) o /\ Forall is_sub o.
 Proof.
+  intro C.
+  assert (F : forall s', hgrows s s' [] -> exists o, hgrows s s' o /\ Forall is_sub o).
+  { intros s' H. exists []. split; [exact H|constructor]. }
   destruct a; cbn [run_action].
-  - unfold post. destruct (_ && _ && _).
+  - apply F. unfold post. destruct (_ && _ && _).
     + apply hgrows_frame; reflexivity.
-    + unfold hgrows. rewrite app_nil_r. cbn. repeat split.
+    + unfold hgrows. rewrite app_nil_r. cbn. repeat split; auto.
       eexists [_]. split; reflexivity.
-  - apply hgrows_frame; reflexivity.
-  - unfold remove_by_key. destruct (assoc key (keys s)); [|apply hgrows_refl].
+  - apply F. apply hgrows_frame; reflexivity.
+  - apply F. unfold remove_by_key. destruct (assoc key (keys s)); [|apply hgrows_refl].
     destruct (reg_get z (reg s)); [|apply hgrows_refl]. apply hgrows_frame; reflexivity.
-  - apply hgrows_frame; reflexivity.
-  - unfold replace_handler. destruct (reg_get e (reg s)); apply hgrows_frame; reflexivity.
+  - apply F. apply hgrows_frame; reflexivity.
+  - apply F. unfold replace_handler. destruct (reg_get e (reg s)); apply hgrows_frame; reflexivity.
+  - apply F. unfold remove_by_event. destruct (reg_get e (reg s)); [|apply hgrows_refl]. apply hgrows_frame; reflexivity.
+  - apply F. apply hgrows_frame; reflexivity.
+  - apply F. apply hgrows_frame; reflexivity.
+  - apply F. apply hgrows_frame; reflexivity.
+  - destruct (assoc name (dly s)) as [q|]; [|apply F, hgrows_refl].
+    destruct (C q (set_dly (dly_del name (dly s)) s)) as (o & G & Fo). exists o. split; [|exact Fo].
+    change o with ([] ++ o). eapply hgrows_trans; [|exact G]. apply hgrows_frame; reflexivity.
+  - revert s F. induction pids as [|q pids IH]; intros s F; cbn [fold_left].
+    + apply F, hgrows_refl.
+    + destruct (C q s) as (o1 & G1 & F1).
+      destruct (IH (call q s)) as (o2 & G2 & F2).
+      { intros s' H. exists []. split; [exact H|constructor]. }
+      exists (o1 ++ o2). split; [eapply hgrows_trans; eassumption|]. apply Forall_app. split; assumption.
+  - apply F. apply hgrows_frame; reflexivity.
 Qed.
 
-Lemma run_acts_grows fast l : forall s, hgrows s (run_acts fast l s) [].
+Lemma run_acts_grows fast call l : call_grows call ->
+  forall s, exists o, hgrows s (run_acts fast call l s) o /\ Forall is_sub o.
 Proof.
-  unfold run_acts. induction l as [|a l IH]; intro s; cbn [fold_left]; [apply hgrows_refl|].
-  change (@nil obs) with (@nil obs ++ @nil obs). eapply hgrows_trans; [apply run_action_grows|apply IH].
-Qed.
-
-Lemma invoke_grows fast sc pid s : hgrows s (fst (invoke fast sc pid s)) [].
-Proof.
-  unfold invoke. cbn [fst]. change (@nil obs) with (@nil obs ++ @nil obs).
-  eapply hgrows_trans; [|apply run_acts_grows]. apply hgrows_frame; reflexivity.
+  intro C. unfold run_acts. induction l as [|a l IH]; intro s; cbn [fold_left].
+  - exists []. split; [apply hgrows_refl|constructor].
+  - destruct (run_action_grows fast call a s C) as (o1 & G1 & F1).
+    destruct (IH (run_action fast call a s)) as (o2 & G2 & F2).
+    exists (o1 ++ o2). split; [eapply hgrows_trans; eassumption|]. apply Forall_app. split; assumption.
 Qed.
 
 Lemma emit_grows o s : hgrows s (emit o s) [o].
-Proof. unfold hgrows. cbn. repeat split. exists []. cbn. now rewrite !app_nil_r. Qed.
+Proof. unfold hgrows. cbn. repeat split; auto. exists []. cbn. now rewrite !app_nil_r. Qed.
+
+(* THE statement about calls into DelayManager / SwitchController from inside a program: whatever the program does -
+   including run_now and process_switch, nested to any depth - nothing is dispatched, no completion callback is
+   queued or run, posts are only appended to event_queue, and the only observations are the inline callbacks *)
+Lemma invoke_d_grows fast sc d : forall pid s,
+  exists o, hgrows s (fst (invoke_d fast sc d pid s)) o /\ Forall is_sub o.
+Proof.
+  induction d as [|d IH]; intros pid s; cbn [invoke_d fst].
+  - match goal with |- context [run_acts fast ?c ?l ?s0] =>
+      destruct (run_acts_grows fast c l) with (s := s0) as (o & G & Fo) end.
+    { intros p s'. exists []. split; [|constructor]. unfold hgrows. rewrite app_nil_r. cbn. repeat split; auto.
+      - discriminate.
+      - exists []. cbn. now rewrite !app_nil_r. }
+    exists o. split; [|exact Fo]. change o with ([] ++ o). eapply hgrows_trans; [|exact G].
+    apply hgrows_frame; reflexivity.
+  - match goal with |- context [run_acts fast ?c ?l ?s0] =>
+      destruct (run_acts_grows fast c l) with (s := s0) as (o & G & Fo) end.
+    { intros p s'. destruct (IH p (emit (Sub p) s')) as (o & G & Fo). exists ([Sub p] ++ o). split.
+      - eapply hgrows_trans; [apply emit_grows|exact G].
+      - constructor; [now exists p|exact Fo]. }
+    exists o. split; [|exact Fo]. change o with ([] ++ o). eapply hgrows_trans; [|exact G].
+    apply hgrows_frame; reflexivity.
+Qed.
+
+Lemma invoke_grows fast sc pid s : exists o, hgrows s (fst (invoke fast sc pid s)) o /\ Forall is_sub o.
+Proof. apply invoke_d_grows. Qed.
 
 Lemma run_handlers_grows fast sc e ty hs : forall kwargs r s,
   exists o, hgrows s (fst (fst (run_handlers fast sc e ty hs kwargs r s))) o /\ Forall (is_invoke e) o.
 Proof.
   induction hs as [|h tl IH]; intros kwargs r s; cbn [run_handlers].
   - exists []. split; [apply hgrows_refl|constructor].
-  - destruct (cond_holds _ _); [|apply IH].
+  - destruct (blocked kwargs h); [apply IH|].
+    destruct (cond_holds _ _); [|apply IH].
     set (ob := Invoke (h_key h) (h_pid h) e (merge kwargs (h_kw h))).
-    pose proof (invoke_grows fast sc (h_pid h) (emit ob s)) as G.
+    destruct (invoke_grows fast sc (h_pid h) (emit ob s)) as (oi & G & Fi).
     destruct (invoke fast sc (h_pid h) (emit ob s)) as [s2 r2]. cbn [fst] in G.
-    assert (G2 : hgrows s s2 [ob]).
-    { change [ob] with ([ob] ++ []). eapply hgrows_trans; [apply emit_grows|exact G]. }
-    assert (Hob : is_invoke e ob) by (subst ob; unfold is_invoke; eauto).
+    assert (G2 : hgrows s s2 ([ob] ++ oi)).
+    { eapply hgrows_trans; [apply emit_grows|exact G]. }
+    assert (Hob : Forall (is_invoke e) ([ob] ++ oi)).
+    { constructor; [left; subst ob; eauto|now apply subs_are_seg]. }
     assert (K : forall kw' r', exists o, hgrows s (fst (fst (run_handlers fast sc e ty tl kw' r' s2))) o /\
                                           Forall (is_invoke e) o).
-    { intros kw' r'. destruct (IH kw' r' s2) as (o & Go & Fo). exists ([ob] ++ o). split.
+    { intros kw' r'. destruct (IH kw' r' s2) as (o & Go & Fo). exists (([ob] ++ oi) ++ o). split.
       - eapply hgrows_trans; eassumption.
-      - constructor; assumption. }
-    destruct ty.
-    + apply K.
-    + destruct (is_false r2); [|apply K]. cbn [fst]. exists [ob]. split; [exact G2|constructor; [exact Hob|constructor]].
-    + destruct r2; apply K.
+      - apply Forall_app. split; assumption. }
+    destruct ty; try apply K.
+    destruct (is_false r2); [|apply K]. cbn [fst]. exists ([ob] ++ oi). split; [exact G2|exact Hob].
 Qed.
 
-(* plain events: exactly the snapshot, filtered by condition, in order, with handler kwargs winning *)
+(* the Invoke observations of a list *)
+Definition is_inv_b (o : obs) : bool := match o with Invoke _ _ _ _ => true | _ => false end.
+Definition invokes (o : list obs) : list obs := filter is_inv_b o.
+
+Lemma invokes_app a b : invokes (a ++ b) = invokes a ++ invokes b.
+Proof. apply filter_app. Qed.
+Lemma invokes_subs o : Forall is_sub o -> invokes o = [].
+Proof. induction 1 as [|x o (p & ->) _ IH]; [reflexivity|exact IH]. Qed.
+
+(* plain events: exactly the snapshot, minus the handlers blocked by the posted _min_priority, filtered by condition, in
+   order, with handler kwargs winning *)
 Definition expected_invocations (e : Z) (kwargs : kw) (hs : list handler) : list obs :=
   map (fun h => Invoke (h_key h) (h_pid h) e (merge kwargs (h_kw h)))
-      (filter (fun h => cond_holds (h_cond h) (merge kwargs (h_kw h))) hs).
+      (filter (fun h => negb (blocked kwargs h) && cond_holds (h_cond h) (merge kwargs (h_kw h))) hs).
 
-Lemma run_handlers_plain fast sc e hs : forall kwargs r s,
-  out (fst (fst (run_handlers fast sc e TNone hs kwargs r s))) = out s ++ expected_invocations e kwargs hs.
+(* scripts in which no handler returns {'_min_priority': ...}: the posted kwargs of a plain event stay what they are *)
+Definition is_mp (r : ret) : bool := match r with RMinPrio _ => true | _ => false end.
+Definition script_plain (sc : script) : bool :=
+  forallb (fun e => forallb (fun p => negb (is_mp (p_ret p))) (snd e)) sc.
+
+Lemma script_get_plain sc pid :
+  script_plain sc = true -> forallb (fun p => negb (is_mp (p_ret p))) (script_get pid sc) = true.
 Proof.
-  unfold expected_invocations.
+  unfold script_plain. induction sc as [|[q l] sc IH]; cbn; [reflexivity|].
+  intro H. apply andb_true_iff in H as [H1 H2]. destruct (pid =? q); [exact H1|now apply IH].
+Qed.
+
+Lemma invoke_ret_plain fast sc pid s : script_plain sc = true -> is_mp (snd (invoke fast sc pid s)) = false.
+Proof.
+  intro P. unfold invoke. destruct DEPTH; cbn [invoke_d snd];
+    (destruct (nth_in_or_default (cnt_get pid (cnt s)) (script_get pid sc) (mkP [] RNone)) as [I| ->]; [|reflexivity];
+     pose proof (script_get_plain sc pid P) as F; rewrite forallb_forall in F; apply F in I;
+     now apply negb_true_iff in I).
+Qed.
+
+Lemma after_ret_plain r kwargs : is_mp r = false -> after_ret TNone r kwargs = kwargs.
+Proof. destruct r; cbn; intro H; try reflexivity. discriminate. Qed.
+
+Lemma run_handlers_plain fast sc e hs : script_plain sc = true -> forall kwargs r s,
+  exists o, out (fst (fst (run_handlers fast sc e TNone hs kwargs r s))) = out s ++ o /\
+            invokes o = expected_invocations e kwargs hs.
+Proof.
+  intro SP. unfold expected_invocations.
   induction hs as [|h tl IH]; intros kwargs r s; cbn [run_handlers filter map].
-  - now rewrite app_nil_r.
-  - destruct (cond_holds _ _); [|apply IH].
+  - exists []. now rewrite app_nil_r.
+  - destruct (blocked kwargs h); cbn [negb andb]; [apply IH|].
+    destruct (cond_holds _ _); [|apply IH].
     set (ob := Invoke (h_key h) (h_pid h) e (merge kwargs (h_kw h))).
-    pose proof (invoke_grows fast sc (h_pid h) (emit ob s)) as G.
-    destruct (invoke fast sc (h_pid h) (emit ob s)) as [s2 r2]. cbn [fst] in G.
-    destruct G as (G1 & _). rewrite app_nil_r in G1. cbn [out emit] in G1.
-    rewrite IH, G1. cbn [map]. now rewrite <- app_assoc.
+    destruct (invoke_grows fast sc (h_pid h) (emit ob s)) as (oi & G & Fi).
+    pose proof (invoke_ret_plain fast sc (h_pid h) (emit ob s) SP) as RP.
+    destruct (invoke fast sc (h_pid h) (emit ob s)) as [s2 r2]. cbn [fst] in G. cbn [snd] in RP.
+    destruct G as (G1 & _). cbn [out emit] in G1. rewrite (after_ret_plain _ _ RP).
+    destruct (IH kwargs r2 s2) as (o & E & I).
+    exists ([ob] ++ oi ++ o). split.
+    + rewrite E, G1. now rewrite <- !app_assoc.
+    + rewrite !invokes_app, (invokes_subs _ Fi), I. reflexivity.
 Qed.
 
 Definition snapshot (e : Z) (s : state) : list handler :=
   match reg_get e (reg s) with Some l => l | None => [] end.
 
-Lemma process_spec fast sc p s :
-  let s1 := process fast sc p s in
+Lemma process_std_spec fast sc p s :
+  let s1 := process_std fast sc p s in
   exists o new,
     out s1 = out s ++ o /\ Forall (is_invoke (q_ev p)) o /\
     evq s1 = evq s ++ new /\ enq s1 = enq s ++ map q_id new /\
-    disp s1 = disp s ++ [q_id p] /\ oof s1 = oof s /\
+    disp s1 = disp s ++ [q_id p] /\ (oof s1 = false -> oof s = false) /\
     ((q_cb p = None /\ cbq s1 = cbq s /\ pushed s1 = pushed s) \/
      (exists cb k, q_cb p = Some cb /\ cbq s1 = (q_id p, cb, k) :: cbq s /\ pushed s1 = pushed s ++ [q_id p])).
 Proof.
-  cbn zeta. unfold process. cbn [reg mark_disp].
+  cbn zeta. unfold process_std. cbn [reg mark_disp].
   assert (K : exists o, hgrows (mark_disp (q_id p) s)
             (fst (fst (match reg_get (q_ev p) (reg s) with
                        | Some hs => run_handlers fast sc (q_ev p) (q_ty p) hs (q_kw p) RNone (mark_disp (q_id p) s)
@@ -430,16 +566,109 @@ Proof.
   - repeat split; try assumption. left. repeat split; assumption.
 Qed.
 
-Lemma process_plain fast sc p s :
-  q_ty p = TNone ->
-  out (process fast sc p s) = out s ++ expected_invocations (q_ev p) (q_kw p) (snapshot (q_ev p) s).
+(* one dispatch.  Queue events: nothing runs inside process_event_queue; the callback is queued only when the event has
+   no handler (otherwise the task calls it) *)
+Lemma process_spec fast sc p s :
+  let s1 := process fast sc p s in
+  exists o new,
+    out s1 = out s ++ o /\ Forall (is_invoke (q_ev p)) o /\
+    evq s1 = evq s ++ new /\ enq s1 = enq s ++ map q_id new /\
+    disp s1 = disp s ++ [q_id p] /\ (oof s1 = false -> oof s = false) /\
+    ((cbq s1 = cbq s /\ pushed s1 = pushed s /\ (q_cb p = None \/ q_ty p = TQueue)) \/
+     (exists cb k, q_cb p = Some cb /\ cbq s1 = (q_id p, cb, k) :: cbq s /\ pushed s1 = pushed s ++ [q_id p])).
 Proof.
-  intro T. unfold process, snapshot. cbn [reg mark_disp]. rewrite T.
+  cbn zeta. unfold process.
+  assert (S : q_ty p <> TQueue -> exists o new,
+    out (process_std fast sc p s) = out s ++ o /\ Forall (is_invoke (q_ev p)) o /\
+    evq (process_std fast sc p s) = evq s ++ new /\ enq (process_std fast sc p s) = enq s ++ map q_id new /\
+    disp (process_std fast sc p s) = disp s ++ [q_id p] /\ (oof (process_std fast sc p s) = false -> oof s = false) /\
+    ((cbq (process_std fast sc p s) = cbq s /\ pushed (process_std fast sc p s) = pushed s /\
+      (q_cb p = None \/ q_ty p = TQueue)) \/
+     (exists cb k, q_cb p = Some cb /\ cbq (process_std fast sc p s) = (q_id p, cb, k) :: cbq s /\
+                   pushed (process_std fast sc p s) = pushed s ++ [q_id p]))).
+  { intros _. destruct (process_std_spec fast sc p s) as (o & new & A1 & A2 & A3 & A4 & A5 & A6 & A7). cbn zeta in *.
+    exists o, new. repeat split; try assumption.
+    destruct A7 as [(B1 & B2 & B3)|B]; [left; auto|right; exact B]. }
+  destruct (q_ty p) eqn:T; try (apply S; discriminate).
+  clear S. unfold process_q. cbn [reg mark_disp].
+  exists [], []. cbn [map]. rewrite !app_nil_r.
+  destruct (reg_get (q_ev p) (reg s)).
+  - cbn. repeat split; auto.
+  - destruct (q_cb p) as [cb|] eqn:Q; cbn; repeat split; auto.
+    right. eexists cb, _. repeat split.
+Qed.
+
+Lemma process_plain fast sc p s :
+  script_plain sc = true -> q_ty p = TNone ->
+  exists o, out (process fast sc p s) = out s ++ o /\
+            invokes o = expected_invocations (q_ev p) (q_kw p) (snapshot (q_ev p) s).
+Proof.
+  intros SP T. unfold process. rewrite T. unfold process_std, snapshot. cbn [reg mark_disp]. rewrite T.
   destruct (reg_get (q_ev p) (reg s)) as [hs|].
-  - pose proof (run_handlers_plain fast sc (q_ev p) hs (q_kw p) RNone (mark_disp (q_id p) s)) as H.
+  - destruct (run_handlers_plain fast sc (q_ev p) hs SP (q_kw p) RNone (mark_disp (q_id p) s)) as (o & H & I).
     destruct (run_handlers _ _ _ _ _ _ _ _) as [[s1 kwargs] result]. cbn [fst] in H.
-    destruct (q_cb p); exact H.
-  - unfold expected_invocations. cbn. rewrite app_nil_r. destruct (q_cb p); reflexivity.
+    exists o. split; [|exact I]. destruct (q_cb p); exact H.
+  - exists []. unfold expected_invocations. cbn. rewrite app_nil_r. split; [|reflexivity]. destruct (q_cb p); reflexivity.
+Qed.
+
+(* every event type, every script (also handlers that return _min_priority, abort a boolean event, relay): the handlers
+   called in one dispatch are a subsequence of the snapshot - each at most once, in the order of the list *)
+Inductive sublist {A} : list A -> list A -> Prop :=
+| sl_nil : sublist [] []
+| sl_skip x l1 l2 : sublist l1 l2 -> sublist l1 (x :: l2)
+| sl_keep x l1 l2 : sublist l1 l2 -> sublist (x :: l1) (x :: l2).
+
+Lemma sublist_nil {A} (l : list A) : sublist [] l.
+Proof. induction l; constructor; assumption. Qed.
+
+Definition okey (o : obs) : Z := match o with Invoke k _ _ _ => k | _ => 0 end.
+
+Lemma run_handlers_sub fast sc e ty hs : forall kwargs r s,
+  exists o called, out (fst (fst (run_handlers fast sc e ty hs kwargs r s))) = out s ++ o /\
+                   sublist called hs /\ map okey (invokes o) = map h_key called.
+Proof.
+  induction hs as [|h tl IH]; intros kwargs r s; cbn [run_handlers].
+  - exists [], []. rewrite app_nil_r. repeat split. constructor.
+  - assert (SK : forall kw' r', exists o called,
+              out (fst (fst (run_handlers fast sc e ty tl kw' r' s))) = out s ++ o /\
+              sublist called (h :: tl) /\ map okey (invokes o) = map h_key called).
+    { intros kw' r'. destruct (IH kw' r' s) as (o & c & E & S & M). exists o, c. repeat split; try assumption.
+      now constructor. }
+    destruct (blocked kwargs h); [apply SK|].
+    destruct (cond_holds _ _); [|apply SK].
+    set (ob := Invoke (h_key h) (h_pid h) e (merge kwargs (h_kw h))).
+    destruct (invoke_grows fast sc (h_pid h) (emit ob s)) as (oi & G & Fi).
+    destruct (invoke fast sc (h_pid h) (emit ob s)) as [s2 r2]. cbn [fst] in G.
+    destruct G as (G1 & _). cbn [out emit] in G1.
+    assert (K : forall kw', exists o called,
+              out (fst (fst (run_handlers fast sc e ty tl kw' r2 s2))) = out s ++ o /\
+              sublist called (h :: tl) /\ map okey (invokes o) = map h_key called).
+    { intro kw'. destruct (IH kw' r2 s2) as (o & c & E & S & M). exists ([ob] ++ oi ++ o), (h :: c). split.
+      - rewrite E, G1. now rewrite <- !app_assoc.
+      - split; [now constructor|]. rewrite !invokes_app, (invokes_subs _ Fi). cbn. now rewrite M. }
+    destruct ty; try apply K.
+    destruct (is_false r2); [|apply K]. cbn [fst]. exists ([ob] ++ oi), [h]. split; [now rewrite G1, <- app_assoc|].
+    split; [constructor; apply sublist_nil|]. rewrite invokes_app, (invokes_subs _ Fi). reflexivity.
+Qed.
+
+Lemma process_sub fast sc p s :
+  exists o called, out (process fast sc p s) = out s ++ o /\
+                   sublist called (snapshot (q_ev p) s) /\ map okey (invokes o) = map h_key called.
+Proof.
+  assert (Z0 : forall s', out s' = out s -> exists o called, out s' = out s ++ o /\
+                 sublist called (snapshot (q_ev p) s) /\ map okey (invokes o) = map h_key called).
+  { intros s' E. exists [], []. rewrite app_nil_r. repeat split; [exact E|apply sublist_nil]. }
+  assert (S : exists o called, out (process_std fast sc p s) = out s ++ o /\
+                 sublist called (snapshot (q_ev p) s) /\ map okey (invokes o) = map h_key called).
+  { unfold process_std, snapshot. cbn [reg mark_disp].
+    destruct (reg_get (q_ev p) (reg s)) as [hs|].
+    - destruct (run_handlers_sub fast sc (q_ev p) (q_ty p) hs (q_kw p) RNone (mark_disp (q_id p) s)) as (o & c & E & Sb & M).
+      destruct (run_handlers _ _ _ _ _ _ _ _) as [[s1 kwargs] result]. cbn [fst] in E.
+      exists o, c. repeat split; try assumption. destruct (q_cb p); exact E.
+    - exists [], []. rewrite app_nil_r. repeat split; [destruct (q_cb p); reflexivity|constructor]. }
+  unfold process. destruct (q_ty p); try exact S.
+  apply Z0. unfold process_q. cbn [reg mark_disp]. destruct (reg_get (q_ev p) (reg s)); [reflexivity|].
+  destruct (q_cb p); reflexivity.
 Qed.
 
 (* ========================================================================================== *)
@@ -538,10 +767,10 @@ Proof.
         - cbn in H. discriminate.
         - destruct l as [|p w]; [exact H|]. apply IH in H. cbn [oof set_evq] in H.
           destruct (process_spec fast sc p s) as (o & new & _ & _ & _ & _ & _ & Ho & _). cbn zeta in Ho.
-          now rewrite Ho in H. }
+          exact (Ho H). }
       apply St in H. cbn [oof set_evq] in H.
       destruct (process_spec fast sc q s) as (o & new & _ & _ & _ & _ & _ & Ho & _). cbn zeta in Ho.
-      now rewrite Ho in H.
+      exact (Ho H).
     + cbn [app] in *. rewrite dfs_cons in H. rewrite !dfs_cons.
       rewrite app_assoc in H. destruct (IH _ _ _ H) as [E O].
       rewrite app_assoc, E. split; [|exact O].
@@ -586,8 +815,10 @@ Proof. unfold cbids. induction a as [|x a IH]; cbn; [reflexivity|]. now rewrite 
 
 Lemma cbids_invokes e o : Forall (is_invoke e) o -> cbids o = [].
 Proof.
-  induction 1 as [|x o Hx _ IH]; [reflexivity|]. destruct Hx as (k & p & m & ->). cbn. exact IH.
+  induction 1 as [|x o Hx _ IH]; [reflexivity|]. destruct Hx as [(k & p & m & ->)|(p & ->)]; cbn; exact IH.
 Qed.
+Lemma cbids_subs o : Forall is_sub o -> cbids o = [].
+Proof. intro H. apply (cbids_invokes 0). now apply subs_are_seg. Qed.
 
 Definition Inv (pending : list posted) (s : state) : Prop :=
   forall x,
@@ -597,11 +828,17 @@ Definition Inv (pending : list posted) (s : state) : Prop :=
 Lemma Inv_init : Inv [] init.
 Proof. intro x. cbn. split; reflexivity. Qed.
 
-Lemma Inv_grows pending s s' : hgrows s s' [] -> Inv pending s -> Inv pending s'.
+Lemma Inv_grows pending s s' o : hgrows s s' o -> cbids o = [] -> Inv pending s -> Inv pending s'.
 Proof.
-  intros (G1 & G2 & G3 & G4 & _ & new & G6 & G7) H x. destruct (H x) as [A B].
-  rewrite app_nil_r in G1. rewrite G1, G2, G3, G4, G6, G7. unfold ids in *. rewrite map_app, !cn_app.
+  intros (G1 & G2 & G3 & G4 & _ & new & G6 & G7) Co H x. destruct (H x) as [A B].
+  rewrite G1, G2, G3, G4, G6, G7, cbids_app, Co, app_nil_r. unfold ids in *. rewrite map_app, !cn_app.
   split; lia.
+Qed.
+
+Lemma Inv_invoke pending fast sc pid s : Inv pending s -> Inv pending (fst (invoke fast sc pid s)).
+Proof.
+  intro H. destruct (invoke_grows fast sc pid s) as (o & G & Fo).
+  eapply Inv_grows; [exact G|now apply cbids_subs|exact H].
 Qed.
 
 Lemma Inv_emit_other pending o s : cbid1 o = [] -> Inv pending s -> Inv pending (emit o s).
@@ -626,7 +863,7 @@ Proof.
   unfold ids in *. cbn [map] in A. rewrite cn_cons in A. rewrite !map_app, !cn_app. cbn [map].
   split.
   - change (cn x []) with 0%nat. lia.
-  - destruct P7 as [(_ & Q1 & Q2)|(cb & k & _ & Q1 & Q2)]; rewrite Q1, Q2; [exact B|].
+  - destruct P7 as [(Q1 & Q2 & _)|(cb & k & _ & Q1 & Q2)]; rewrite Q1, Q2; [exact B|].
     cbn [map cid fst]. rewrite cn_cons, cn_app. lia.
 Qed.
 
@@ -636,7 +873,7 @@ Proof.
   - cbn in H. discriminate.
   - destruct l as [|p w]; [exact H|]. apply IH in H. cbn [oof set_evq] in H.
     destruct (process_spec fast sc p s) as (o & new & _ & _ & _ & _ & _ & Ho & _). cbn zeta in Ho.
-    now rewrite Ho in H.
+    exact (Ho H).
 Qed.
 
 Lemma Inv_dfs fast sc f : forall pending s,
@@ -670,7 +907,7 @@ Proof.
       { subst s1. destruct (is_nil (evq s)); [exact H|]. apply Inv_dfs; [now apply Inv_move|exact O1]. }
       destruct (cbq s1) as [|[[i pid] k] rest] eqn:C; [now apply IH|].
       apply IH; [|exact O].
-      eapply Inv_grows; [apply invoke_grows|]. now apply Inv_pop.
+      apply Inv_invoke. now apply Inv_pop.
 Qed.
 
 Lemma drain_oof_sticky fast sc f : forall s, oof (drain fast sc f s) = false -> oof s = false.
@@ -685,25 +922,47 @@ Proof.
     auto.
 Qed.
 
-Lemma turn_complete fast sc f pid s :
-  Inv [] s -> oof (turn fast sc f pid s) = false ->
-  Inv [] (turn fast sc f pid s) /\ evq (turn fast sc f pid s) = [] /\ cbq (turn fast sc f pid s) = [].
+Lemma Inv_frame pending s s' :
+  disp s' = disp s -> evq s' = evq s -> enq s' = enq s -> out s' = out s -> cbq s' = cbq s -> pushed s' = pushed s ->
+  Inv pending s -> Inv pending s'.
+Proof. intros E1 E2 E3 E4 E5 E6 H x. rewrite E1, E2, E3, E4, E5, E6. apply H. Qed.
+
+Lemma ctx_complete fast sc f pid s :
+  Inv [] s -> oof (ctx fast sc f pid s) = false ->
+  Inv [] (ctx fast sc f pid s) /\ evq (ctx fast sc f pid s) = [] /\ cbq (ctx fast sc f pid s) = [].
 Proof.
-  intros H O. unfold turn in *. cbn [oof emit evq cbq] in *.
+  intros H O. unfold ctx in *.
   rewrite (outer_drain fast sc f [] _ (Forall_nil _)) in *.
-  set (s1 := fst (invoke fast sc pid (emit (Ctx pid) s))) in *.
-  assert (H1 : Inv [] s1).
-  { subst s1. eapply Inv_grows; [apply invoke_grows|]. now apply Inv_emit_other. }
-  destruct (drain_complete fast sc f s1 H1 O) as (I2 & E2 & C2).
-  split; [|split; assumption]. now apply Inv_emit_other.
+  apply drain_complete; [|exact O].
+  apply Inv_invoke. apply Inv_emit_other; [reflexivity|]. unfold quiet. now apply Inv_emit_other.
 Qed.
 
-Lemma turn_oof_sticky fast sc f pid s : oof (turn fast sc f pid s) = false -> oof s = false.
+Lemma ctx_oof_sticky fast sc f pid s : oof (ctx fast sc f pid s) = false -> oof s = false.
 Proof.
-  unfold turn. cbn [oof emit]. rewrite (outer_drain fast sc f [] _ (Forall_nil _)). intro O.
+  unfold ctx. rewrite (outer_drain fast sc f [] _ (Forall_nil _)). intro O.
   apply drain_oof_sticky in O.
-  destruct (invoke_grows fast sc pid (emit (Ctx pid) s)) as (_ & _ & _ & _ & G & _).
-  rewrite G in O. exact O.
+  destruct (invoke_grows fast sc pid (emit (Ctx pid) (quiet s))) as (o & (_ & _ & _ & _ & G & _) & _).
+  exact (G O).
+Qed.
+
+(* every context - scripted or an expiring delay - leaves both queues empty: whatever it posted (transitively, including
+   the completion callbacks and what they post) is dispatched before the next callback of the loop runs *)
+Lemma turn_complete fast sc f t s :
+  Inv [] s -> evq s = [] -> cbq s = [] -> oof (turn fast sc f t s) = false ->
+  Inv [] (turn fast sc f t s) /\ evq (turn fast sc f t s) = [] /\ cbq (turn fast sc f t s) = [].
+Proof.
+  intros H E C O. destruct t as [pid|n]; cbn [turn] in *.
+  - now apply ctx_complete.
+  - destruct (assoc n (dly s)) as [pid|].
+    + apply ctx_complete; [|exact O]. exact (Inv_frame [] s _ eq_refl eq_refl eq_refl eq_refl eq_refl eq_refl H).
+    + split; [now apply Inv_emit_other|]. split; assumption.
+Qed.
+
+Lemma turn_oof_sticky fast sc f t s : oof (turn fast sc f t s) = false -> oof s = false.
+Proof.
+  destruct t as [pid|n]; cbn [turn].
+  - apply ctx_oof_sticky.
+  - destruct (assoc n (dly s)) as [pid|]; [|auto]. intro O. now apply ctx_oof_sticky in O.
 Qed.
 
 Lemma run_turns_oof_sticky fast sc f turns : forall s,
@@ -722,7 +981,7 @@ Proof.
   - cbn. auto.
   - change (run_turns fast sc f (pid :: ts) s) with (run_turns fast sc f ts (turn fast sc f pid s)) in *.
     pose proof (run_turns_oof_sticky _ _ _ _ _ O) as O1.
-    destruct (turn_complete fast sc f pid s H O1) as (I1 & E1 & C1).
+    destruct (turn_complete fast sc f pid s H E C O1) as (I1 & E1 & C1).
     now apply IH.
 Qed.
 
@@ -743,7 +1002,7 @@ Qed.
 (* ========================================================================================== *)
 (* H. ordering statements on the specification                                                  *)
 
-Theorem posts_before_waiting_l fast sc f p waiting s :
+Lemma posts_before_waiting_l fast sc f p waiting s :
   oof (dfs fast sc (S f) (p :: waiting) s) = false ->
   let s1 := process fast sc p s in
   dfs fast sc (S f) (p :: waiting) s =
@@ -767,23 +1026,23 @@ Proof.
       destruct (process_spec fast sc p s) as (o1 & new & P1 & P2 & _ & _ & _ & _ & P7). cbn zeta in *.
       cbn [out cbq set_evq] in A, C.
       exists (o1 ++ o). rewrite A, P1, C, cbids_app, (cbids_invokes _ _ P2), B, <- app_assoc.
-      destruct P7 as [(_ & Q1 & _)|(cb & k & _ & Q1 & _)]; rewrite Q1.
+      destruct P7 as [(Q1 & _)|(cb & k & _ & Q1 & _)]; rewrite Q1.
       * exists l. repeat split.
       * exists (l ++ [(q_id p, cb, k)]). rewrite <- app_assoc. repeat split.
 Qed.
 
 (* the callback of p is still waiting when p and everything p transitively posted is done *)
 Lemma callback_after_closure_l fast sc f p cb s :
-  q_cb p = Some cb ->
+  q_cb p = Some cb -> q_ty p <> TQueue ->
   exists k l o, cbq (dfs fast sc (S f) [p] s) = l ++ (q_id p, cb, k) :: cbq s /\
                 out (dfs fast sc (S f) [p] s) = out s ++ o /\ cbids o = [].
 Proof.
-  intro Q. rewrite dfs_cons.
+  intros Q NQ. rewrite dfs_cons.
   destruct (dfs_only_invokes fast sc f (evq (process fast sc p s) ++ []) (set_evq [] (process fast sc p s)))
     as (o & l & A & B & C).
   destruct (process_spec fast sc p s) as (o1 & new & P1 & P2 & _ & _ & _ & _ & P7). cbn zeta in *.
   cbn [out cbq set_evq] in A, C.
-  destruct P7 as [(Q0 & _)|(cb' & k & Q0 & Q1 & _)]; [congruence|].
+  destruct P7 as [(_ & _ & [Q0|Q0])|(cb' & k & Q0 & Q1 & _)]; [congruence|contradiction|].
   assert (cb' = cb) by congruence; subst cb'.
   exists k, l, (o1 ++ o). rewrite C, Q1, A, P1, cbids_app, (cbids_invokes _ _ P2), B, <- app_assoc.
   repeat split.
@@ -792,12 +1051,16 @@ Qed.
 (* handlers of one dispatch (plain event): exactly the snapshot that is registered when the dispatch
    begins, in descending priority with ties in registration order, each once, handler kwargs winning *)
 Lemma handlers_once_l fast sc p s :
-  reg_ok s -> q_ty p = TNone ->
+  script_plain sc = true -> reg_ok s -> q_ty p = TNone ->
   let snap := snapshot (q_ev p) s in
-  out (process fast sc p s) = out s ++ expected_invocations (q_ev p) (q_kw p) snap /\
+  (exists o, out (process fast sc p s) = out s ++ o /\ Forall (is_invoke (q_ev p)) o /\
+             invokes o = expected_invocations (q_ev p) (q_kw p) snap) /\
   sorted_ps snap /\ NoDup snap.
 Proof.
-  intros R T. cbn zeta. split; [now apply process_plain|].
+  intros SP R T. cbn zeta. split.
+  { destruct (process_plain fast sc p s SP T) as (o & E & I). exists o. split; [exact E|]. split; [|exact I].
+    destruct (process_spec fast sc p s) as (o' & new & P1 & P2 & _). cbn zeta in P1.
+    rewrite P1 in E. apply app_inv_head in E. now subst o'. }
   unfold snapshot. destruct (reg_get (q_ev p) (reg s)) as [l|] eqn:G.
   - destruct (reg_ok_get _ _ _ R G) as [S _]. split; [exact S|now apply sorted_ps_NoDup].
   - split; constructor.
@@ -811,11 +1074,17 @@ Proof.
 Qed.
 
 (* the registry invariant holds in every state a run goes through *)
-Lemma turn_ok fast sc f pid s : reg_ok s -> reg_ok (turn fast sc f pid s).
+Lemma ctx_ok fast sc f pid s : reg_ok s -> reg_ok (ctx fast sc f pid s).
 Proof.
-  intro H. unfold turn. rewrite (outer_drain fast sc f [] _ (Forall_nil _)).
-  apply (reg_ok_eq (drain fast sc f (fst (invoke fast sc pid (emit (Ctx pid) s))))); [reflexivity|reflexivity|].
+  intro H. unfold ctx. rewrite (outer_drain fast sc f [] _ (Forall_nil _)).
   apply drain_ok. apply invoke_ok. apply (reg_ok_eq s); [reflexivity|reflexivity|exact H].
+Qed.
+
+Lemma turn_ok fast sc f t s : reg_ok s -> reg_ok (turn fast sc f t s).
+Proof.
+  intro H. destruct t as [pid|n]; cbn [turn]; [now apply ctx_ok|].
+  destruct (assoc n (dly s)); [|exact (reg_ok_eq s _ eq_refl eq_refl H)].
+  apply ctx_ok. exact (reg_ok_eq s _ eq_refl eq_refl H).
 Qed.
 
 Lemma run_turns_ok fast sc f turns : forall s, reg_ok s -> reg_ok (run_turns fast sc f turns s).
@@ -825,10 +1094,10 @@ Proof.
 Qed.
 
 (* add_handler on a sorted list = insert behind every handler of greater or equal priority *)
-Lemma add_handler_stable_l key e pid prio hk c s :
+Lemma add_handler_stable_l key e pid prio hk c bf s :
   reg_ok s ->
-  snapshot e (add_handler key e pid prio hk c s) =
-    place (mkH key pid prio (kw_norm hk) c (nseq s)) (snapshot e s).
+  snapshot e (add_handler key e pid prio hk c bf s) =
+    place (mkH key pid prio (kw_norm hk) c bf (nseq s)) (snapshot e s).
 Proof.
   intro R. unfold snapshot, add_handler. cbn [reg set_reg]. rewrite reg_get_put_same.
   destruct (reg_get e (reg s)) as [l|] eqn:G.
@@ -853,11 +1122,11 @@ Qed.
 (* I. the fast path of _post is observable (recorded finding)                                    *)
 
 Definition fp_script : script :=
-  [(1, [mkP [APost 1 TNone None []; AAdd 1 1 2 1 0 0 [] None] RNone])].
+  [(1, [mkP [APost 1 TNone None []; AAdd 1 1 2 1 0 0 [] None 0] RNone])].
 
 Lemma fastpath_drop_refuted_l :
-  let s := run_turns true fp_script 10 [1] init in
-  let s' := run_turns false fp_script 10 [1] init in
+  let s := run_turns true fp_script 10 [TRun 1] init in
+  let s' := run_turns false fp_script 10 [TRun 1] init in
   oof s = false /\ oof s' = false /\
   map h_key (snapshot 1 s) = [1] /\                 (* the handler is registered when the queue is drained *)
   In (Invoke 1 2 1 []) (out s') /\ ~ In (Invoke 1 2 1 []) (out s).
@@ -883,25 +1152,24 @@ Qed.
       during dispatch and a callback                                                            *)
 
 Definition ex_script : script :=
-  [ (10, [mkP [AAdd 1 1 1 1 0 0 [] None; AAdd 2 1 2 1 0 0 [(1, VZ 7)] None; AAdd 3 1 3 2 0 0 [] None;
-               AAdd 4 2 4 1 0 0 [] None; AAdd 5 3 5 1 0 0 [] None;
+  [ (10, [mkP [AAdd 1 1 1 1 0 0 [] None 0; AAdd 2 1 2 1 0 0 [(1, VZ 7)] None 0; AAdd 3 1 3 2 0 0 [] None 0;
+               AAdd 4 2 4 1 0 0 [] None 0; AAdd 5 3 5 1 0 0 [] None 0;
                APost 1 TNone (Some 20) [(1, VZ 1)]; APost 3 TNone None []] RNone]);
     (3, [mkP [APost 2 TNone None []; ARemove 2] RNone]);
     (4, [mkP [APost 3 TNone None [(2, VB true)]] RNone]) ].
 
 Example ex_run :
-  let s := run_turns true ex_script 50 [10] init in
+  let s := run_turns true ex_script 50 [TRun 10] init in
   oof s = false /\
-  out s = [Ctx 10;
+  out s = [Quiet 0 0; Ctx 10;
            Invoke 3 3 1 [(1, VZ 1)]; Invoke 1 1 1 [(1, VZ 1)]; Invoke 2 2 1 [(1, VZ 7)];
            Invoke 4 4 2 [];
            Invoke 5 5 3 [(2, VB true)];
            Invoke 5 5 3 [];
-           Callback 0 20 [(1, VZ 1)];
-           Quiet 0 0].
-Proof. vm_compute. split; reflexivity. Qed.
+           Callback 0 20 [(1, VZ 1)]] /\ evq s = [] /\ cbq s = [].
+Proof. vm_compute. repeat split; reflexivity. Qed.
 
-Definition ex_state : state := run_turns true ex_script 50 [10] init.
+Definition ex_state : state := run_turns true ex_script 50 [TRun 10] init.
 Definition ex_post : posted := mkQ 100 1 TNone None [(3, VB false)].
 
 (* hypotheses of handlers_once: a reachable state with a non-trivial snapshot (handler 2 was removed) *)
@@ -943,28 +1211,248 @@ Lemma registry_sorted_invariant_l : forall fast sc f turns, reg_ok (run_turns fa
 Proof. intros. apply run_turns_ok. exact reg_ok_init. Qed.
 
 Lemma add_handler_is_stable_insert_l :
-  forall key e pid prio hk c s, reg_ok s ->
-    let h := mkH key pid prio (kw_norm hk) c (nseq s) in
+  forall key e pid prio hk c bf s, reg_ok s ->
+    let h := mkH key pid prio (kw_norm hk) c bf (nseq s) in
     exists a b, snapshot e s = a ++ b /\
-                snapshot e (add_handler key e pid prio hk c s) = a ++ h :: b /\
+                snapshot e (add_handler key e pid prio hk c bf s) = a ++ h :: b /\
                 Forall (fun x => h_prio h <= h_prio x) a /\
                 match b with [] => True | y :: _ => h_prio y < h_prio h end.
 Proof.
-  intros key e pid prio hk c s R h. rewrite (add_handler_stable_l key e pid prio hk c s R).
+  intros key e pid prio hk c bf s R h. rewrite (add_handler_stable_l key e pid prio hk c bf s R).
   apply place_split.
 Qed.
 
 Example ex_add_hyp :
   reg_ok ex_state /\ map h_key (snapshot 1 ex_state) = [3; 1] /\
-  map h_key (snapshot 1 (add_handler 9 1 1 2 [] None ex_state)) = [3; 9; 1].
+  map h_key (snapshot 1 (add_handler 9 1 1 2 [] None 0 ex_state)) = [3; 9; 1].
 Proof. split; [apply run_turns_ok, reg_ok_init|]. vm_compute. split; reflexivity. Qed.
 
 (* the same procedure registered three times for one event (adjacent, equal priority) and once for another *)
 Definition rm_state : state :=
-  run_acts true [AAdd 1 1 7 1 0 0 [] None; AAdd 2 1 7 1 0 0 [] None; AAdd 3 1 7 1 0 0 [] None;
-                 AAdd 4 1 8 1 0 0 [] None; AAdd 5 2 7 1 0 0 [] None] init.
+  run_acts true (fun _ s => s) [AAdd 1 1 7 1 0 0 [] None 0; AAdd 2 1 7 1 0 0 [] None 0; AAdd 3 1 7 1 0 0 [] None 0;
+                 AAdd 4 1 8 1 0 0 [] None 0; AAdd 5 2 7 1 0 0 [] None 0] init.
 Example ex_remove_method :
   map h_key (snapshot 1 rm_state) = [1; 2; 3; 4] /\
   map h_key (snapshot 1 (remove_by_method 7 rm_state)) = [4] /\
   reg_get 2 (reg (remove_by_method 7 rm_state)) = None.
 Proof. vm_compute. repeat split. Qed.
+
+(* ========================================================================================== *)
+(* K. round 2: contexts are drained; _min_priority; inline calls; queue events                  *)
+
+Lemma drain_quiet fast sc f : forall s,
+  oof (drain fast sc f s) = false -> evq (drain fast sc f s) = [] /\ cbq (drain fast sc f s) = [].
+Proof.
+  induction f as [|f IH]; intros s O; cbn [drain] in *.
+  - cbn in O. discriminate.
+  - destruct (is_nil (evq s) && is_nil (cbq s)) eqn:N.
+    + apply andb_true_iff in N as [N1 N2].
+      destruct (evq s); [|discriminate]. destruct (cbq s); [|discriminate]. split; reflexivity.
+    + set (s1 := if is_nil (evq s) then s else dfs fast sc f (evq s) (set_evq [] s)) in *.
+      destruct (oof s1) eqn:O1; [congruence|].
+      destruct (cbq s1) as [|[[i pid] k] rest] eqn:C; now apply IH.
+Qed.
+
+(* a context whose run completes leaves event_queue and callback_queue empty, whatever state it started in and whatever
+   its program and the handlers it reaches do *)
+Lemma ctx_drained_l fast sc f pid s :
+  oof (ctx fast sc f pid s) = false -> evq (ctx fast sc f pid s) = [] /\ cbq (ctx fast sc f pid s) = [].
+Proof. unfold ctx. rewrite (outer_drain fast sc f [] _ (Forall_nil _)). apply drain_quiet. Qed.
+
+Lemma turn_drained_l fast sc f t s :
+  evq s = [] -> cbq s = [] -> oof (turn fast sc f t s) = false ->
+  evq (turn fast sc f t s) = [] /\ cbq (turn fast sc f t s) = [].
+Proof.
+  intros E C O. destruct t as [pid|n]; cbn [turn] in *; [now apply ctx_drained_l|].
+  destruct (assoc n (dly s)); [now apply ctx_drained_l|]. split; assumption.
+Qed.
+
+(* an expiring delay: the entry is dropped before the callback runs; the Quiet / Ctx observations come first *)
+Lemma fire_spec_l fast sc f n pid s :
+  assoc n (dly s) = Some pid ->
+  turn fast sc f (TFire n) s = ctx fast sc f pid (set_dly (dly_del n (dly s)) s).
+Proof. intro A. cbn [turn]. now rewrite A. Qed.
+
+(* --- _min_priority ------------------------------------------------------------------------- *)
+
+Lemma blocked_no_key kwargs h : kw_get KEY_MINPRIO kwargs = None -> blocked kwargs h = false.
+Proof. unfold blocked. now intros ->. Qed.
+
+Lemma blocked_no_facility kwargs h : h_bf h = 0 -> blocked kwargs h = false.
+Proof. unfold blocked. intros ->. destruct (kw_get KEY_MINPRIO kwargs) as [[]|]; reflexivity. Qed.
+
+Lemma blocked_iff kwargs h m :
+  kw_get KEY_MINPRIO kwargs = Some (VMap m) ->
+  (blocked kwargs h = true <->
+   h_bf h <> 0 /\ ((exists a, zz_get 0 m = Some a /\ h_prio h < a) \/
+                   (exists a, zz_get (h_bf h) m = Some a /\ h_prio h < a))).
+Proof.
+  unfold blocked. intros ->. rewrite andb_true_iff, orb_true_iff, negb_true_iff, Z.eqb_neq.
+  split; intros [A B]; (split; [exact A|]).
+  - destruct B as [B|B]; [left|right].
+    + destruct (zz_get 0 m) as [a|]; [|discriminate]. exists a. split; [reflexivity|now apply Z.ltb_lt].
+    + destruct (zz_get (h_bf h) m) as [a|]; [|discriminate]. exists a. split; [reflexivity|now apply Z.ltb_lt].
+  - destruct B as [(a & -> & L)|(a & -> & L)]; [left|right]; now apply Z.ltb_lt.
+Qed.
+
+(* without a posted _min_priority (or for handlers without facility) the dispatch is what it was *)
+Lemma expected_without_min_priority e kwargs hs :
+  kw_get KEY_MINPRIO kwargs = None ->
+  expected_invocations e kwargs hs =
+  map (fun h => Invoke (h_key h) (h_pid h) e (merge kwargs (h_kw h)))
+      (filter (fun h => cond_holds (h_cond h) (merge kwargs (h_kw h))) hs).
+Proof.
+  intro N. unfold expected_invocations. f_equal. apply filter_ext. intro h.
+  now rewrite (blocked_no_key _ _ N).
+Qed.
+
+(* --- queue events -------------------------------------------------------------------------- *)
+
+Definition expected_queue (e : Z) (kwargs : kw) (hs : list handler) : list obs :=
+  map (fun h => Invoke (h_key h) (h_pid h) e (kw_update kwargs (h_kw h)))
+      (filter (fun h => cond_holds (h_cond h) (kw_update kwargs (h_kw h))) hs).
+
+Definition rest_of (r : option (list handler)) : list handler := match r with Some l => l | None => [] end.
+
+Lemma run_seq_spec fast sc e hs : forall kwargs s,
+  exists o, hgrows s (fst (run_seq fast sc e hs kwargs s)) o /\ Forall (is_invoke e) o /\
+            invokes o ++ expected_queue e kwargs (rest_of (snd (run_seq fast sc e hs kwargs s))) =
+            expected_queue e kwargs hs.
+Proof.
+  induction hs as [|h tl IH]; intros kwargs s.
+  - exists []. split; [apply hgrows_refl|]. split; [constructor|reflexivity].
+  - unfold expected_queue at 2. cbn [run_seq filter].
+    destruct (cond_holds (h_cond h) (kw_update kwargs (h_kw h))) eqn:CH; [|apply IH].
+    cbn [map]. fold (expected_queue e kwargs tl).
+    set (ob := Invoke (h_key h) (h_pid h) e (kw_update kwargs (h_kw h))).
+    destruct (invoke_grows fast sc (h_pid h) (emit ob s)) as (oi & G & Fi).
+    destruct (invoke fast sc (h_pid h) (emit ob s)) as [s2 r2]. cbn [fst] in G.
+    assert (G2 : hgrows s s2 ([ob] ++ oi)).
+    { eapply hgrows_trans; [apply emit_grows|exact G]. }
+    assert (Hob : Forall (is_invoke e) ([ob] ++ oi)).
+    { constructor; [left; subst ob; eauto|now apply subs_are_seg]. }
+    assert (Iob : invokes ([ob] ++ oi) = [ob]).
+    { rewrite invokes_app, (invokes_subs _ Fi). reflexivity. }
+    assert (K : exists o, hgrows s (fst (run_seq fast sc e tl kwargs s2)) o /\ Forall (is_invoke e) o /\
+              invokes o ++ expected_queue e kwargs (rest_of (snd (run_seq fast sc e tl kwargs s2))) =
+              ob :: expected_queue e kwargs tl).
+    { destruct (IH kwargs s2) as (o & Go & Fo & Eo). exists (([ob] ++ oi) ++ o). split.
+      - eapply hgrows_trans; eassumption.
+      - split; [apply Forall_app; split; assumption|].
+        rewrite invokes_app, Iob. cbn [app]. now rewrite Eo. }
+    destruct r2; try exact K.
+    cbn [fst snd rest_of]. exists ([ob] ++ oi). split; [exact G2|]. split; [exact Hob|].
+    rewrite Iob. reflexivity.
+Qed.
+
+(* one step of a queue event's task.  It dispatches nothing and touches no queued callback.  If it ends in a wait, no
+   callback ran and the handlers called so far followed by what is still to do are exactly the handlers of the list
+   (each once, in list order, handler kwargs winning, condition on the merged kwargs).  If it ends the task, all
+   remaining handlers were called and THEN the callback ran - once, with the posted kwargs. *)
+Lemma task_step_spec fast sc tk s :
+  let hs := match t_todo tk with Some l => l | None => snapshot (t_ev tk) s end in
+  let s' := fst (task_step fast sc tk s) in
+  disp s' = disp s /\ cbq s' = cbq s /\
+  exists o, Forall (is_invoke (t_ev tk)) o /\
+    match snd (task_step fast sc tk s) with
+    | Some tk' =>
+        out s' = out s ++ o /\ t_wait tk' = true /\ t_id tk' = t_id tk /\ t_ev tk' = t_ev tk /\
+        t_cb tk' = t_cb tk /\ t_kw tk' = t_kw tk /\
+        exists tl, t_todo tk' = Some tl /\
+                   invokes o ++ expected_queue (t_ev tk) (t_kw tk) tl = expected_queue (t_ev tk) (t_kw tk) hs
+    | None =>
+        invokes o = expected_queue (t_ev tk) (t_kw tk) hs /\
+        match t_cb tk with
+        | Some cb => exists o2, out s' = out s ++ o ++ Callback (t_id tk) cb (t_kw tk) :: o2 /\ Forall is_sub o2
+        | None => out s' = out s ++ o
+        end
+    end.
+Proof.
+  cbn zeta. unfold task_step, snapshot.
+  set (hs := match t_todo tk with Some l => l | None => match reg_get (t_ev tk) (reg s) with Some l => l | None => [] end end).
+  destruct (run_seq_spec fast sc (t_ev tk) hs (t_kw tk) s) as (o & (G1 & G2 & G3 & G4 & G5 & new & G6 & G7) & Fo & Eo).
+  destruct (run_seq fast sc (t_ev tk) hs (t_kw tk) s) as [s1 [tl|]]; cbn [fst snd rest_of] in *.
+  - split; [exact G4|]. split; [exact G2|]. exists o. split; [exact Fo|]. cbn.
+    repeat split; try assumption. exists tl. split; [reflexivity|exact Eo].
+  - unfold expected_queue at 1 in Eo. cbn [filter map] in Eo. rewrite app_nil_r in Eo.
+    unfold finish_task. destruct (t_cb tk) as [cb|].
+    + destruct (invoke_grows fast sc cb (emit (Callback (t_id tk) cb (t_kw tk)) (mark_pushed (t_id tk) s1)))
+        as (o2 & (H1 & H2 & H3 & H4 & _) & F2).
+      cbn [out cbq disp emit mark_pushed] in *.
+      split; [now rewrite H4|]. split; [now rewrite H2|]. exists o. split; [exact Fo|]. split; [exact Eo|].
+      exists o2. split; [|exact F2]. rewrite H1, G1, <- !app_assoc. reflexivity.
+    + split; [exact G4|]. split; [exact G2|]. exists o. split; [exact Fo|]. split; [exact Eo|exact G1].
+Qed.
+
+(* ========================================================================================== *)
+(* L. round 2 examples                                                                          *)
+
+(* a handler that hurries a pending delay (run_now) whose callback posts, while its own event has a handler left and an
+   ancestor event has a completion callback:
+     "top" (cb 20) -> handler 1 posts "outer"; "outer": handler 2 (prio 2) posts "child" and calls run_now(7), whose
+     callback (procedure 9) posts "from_delay"; handler 3 (prio 1) of "outer" runs NEXT; then child, from_delay, and only
+     then the callback of "top" *)
+Definition rn_script : script :=
+  [ (10, [mkP [AAdd 1 1 1 1 0 0 [] None 0; AAdd 2 2 2 2 0 0 [] None 0; AAdd 3 2 3 1 0 0 [] None 0;
+               AAdd 4 3 4 1 0 0 [] None 0; AAdd 5 4 5 1 0 0 [] None 0;
+               ADelayAdd 7 9; APost 1 TNone (Some 20) []] RNone]);
+    (1, [mkP [APost 2 TNone None []] RNone]);
+    (2, [mkP [APost 3 TNone None []; ARunNow 7; ARunNow 7] RNone]);
+    (9, [mkP [APost 4 TNone None []] RNone]) ].
+
+Example ex_run_now :
+  let s := run_turns true rn_script 50 [TRun 10; TFire 7] init in
+  oof s = false /\ dly s = [] /\
+  out s = [Quiet 0 0; Ctx 10; Invoke 1 1 1 []; Invoke 2 2 2 []; Sub 9; Invoke 3 3 2 []; Invoke 4 4 3 [];
+           Invoke 5 5 4 []; Callback 0 20 []; Ctx (-1)].
+Proof. vm_compute. repeat split; reflexivity. Qed.
+
+(* a posted _min_priority {'all': 2, facility 1: 5}: handlers with a facility and a priority below the minimum are
+   skipped, handlers without facility are not *)
+Definition mp_script : script :=
+  [ (10, [mkP [AAdd 1 1 1 6 0 0 [] None 1; AAdd 2 1 2 4 0 0 [] None 1; AAdd 3 1 3 3 0 0 [] None 2;
+               AAdd 4 1 4 1 0 0 [] None 2; AAdd 5 1 5 0 0 0 [] None 0;
+               APost 1 TNone None [(KEY_MINPRIO, VMap [(0, 2); (1, 5)])]] RNone]) ].
+Example ex_min_priority :
+  let s := run_turns true mp_script 50 [TRun 10] init in
+  oof s = false /\
+  out s = [Quiet 0 0; Ctx 10; Invoke 1 1 1 [(KEY_MINPRIO, VMap [(0, 2); (1, 5)])];
+           Invoke 3 3 1 [(KEY_MINPRIO, VMap [(0, 2); (1, 5)])]; Invoke 5 5 1 [(KEY_MINPRIO, VMap [(0, 2); (1, 5)])]].
+Proof. vm_compute. repeat split; reflexivity. Qed.
+
+(* the way MPF uses it (block_event_player, shot): the handler of the highest priority RETURNS {'_min_priority': {'all': 3}};
+   the handlers that follow in the same dispatch and have a facility and a priority below 3 are skipped *)
+Definition mpr_script : script :=
+  [ (10, [mkP [AAdd 1 1 1 6 0 0 [] None 1; AAdd 2 1 2 4 0 0 [] None 1; AAdd 3 1 3 2 0 0 [] None 2;
+               AAdd 4 1 4 1 0 0 [] None 0;
+               APost 1 TNone (Some 20) []] RNone]);
+    (1, [mkP [] (RMinPrio [(0, 3)])]) ].
+Example ex_min_priority_ret :
+  let s := run_turns true mpr_script 50 [TRun 10] init in
+  oof s = false /\ script_plain mpr_script = false /\
+  out s = [Quiet 0 0; Ctx 10; Invoke 1 1 1 []; Invoke 2 2 1 [(KEY_MINPRIO, VMap [(0, 3)])];
+           Invoke 4 4 1 [(KEY_MINPRIO, VMap [(0, 3)])]; Callback 0 20 [(KEY_MINPRIO, VMap [(0, 3)])]].
+Proof. vm_compute. repeat split; reflexivity. Qed.
+
+(* a queue event with three handlers; the second waits; a later context clears the wait; handler kwargs win *)
+Definition q_script : script :=
+  [ (10, [mkP [AAdd 1 1 1 3 0 0 [(1, VZ 7)] None 0; AAdd 2 1 2 2 0 0 [] None 0; AAdd 3 1 3 1 0 0 [] (Some (1, 1)) 0;
+               AAdd 4 2 4 1 0 0 [] None 0;
+               APost 1 TQueue (Some 20) [(1, VZ 1); (2, VZ 2)]] RNone]);
+    (1, [mkP [APost 2 TNone None []] RNone]);
+    (2, [mkP [] RWait]);
+    (11, [mkP [AClear] RNone]) ].
+Example ex_queue :
+  let s := qrun_turns true q_script 50 [TRun 10; TRun 11] init in
+  oof s = false /\ tasks s = [] /\
+  out s = [Quiet 0 0; Ctx 10; Invoke 1 1 1 [(1, VZ 7); (2, VZ 2)]; Invoke 2 2 1 [(1, VZ 1); (2, VZ 2)];
+           Invoke 4 4 2 [];
+           Quiet 0 0; Ctx 11; Invoke 3 3 1 [(1, VZ 1); (2, VZ 2)]; Callback 0 20 [(1, VZ 1); (2, VZ 2)]].
+Proof. vm_compute. repeat split; reflexivity. Qed.
+
+Definition q_task : qtask := mkT 0 1 (Some 20) [(1, VZ 1); (2, VZ 2)] None false.
+Example ex_task_step_hyp :
+  let s := fst (invoke true q_script 10 init) in
+  map h_key (snapshot 1 s) = [1; 2; 3] /\
+  match snd (task_step true q_script q_task s) with Some tk' => map h_key (rest_of (t_todo tk')) = [3] | None => False end.
+Proof. vm_compute. split; reflexivity. Qed.
